@@ -638,6 +638,15 @@ def run_base(mon: Monitor, base: Base, other: Base | None, ctx, families=None):
             ep = lambda t, k, a, given=given: j.rfc7797.deserialize_compact(t, k, payload=given, algorithms=a)
             mon.judge(base, "caller-payload-vs-attached", name, base.token, jkey, resolver, allow, "rfc7797.deserialize_compact[payload=]", ep,
                       expect_reject=(name != "same"), detached=given or None)
+        # ... and the other way round: the attached segment changed, the caller hands over the payload that was signed. The input is a valid JWS with
+        # changed payload octets; a detached payload comes with an empty payload segment only (RFC 7797, 5.2 / RFC 7515, appendix F)
+        h64, _, s64 = base.token.split(".")
+        for name, seg in (("segment-replaced", "pay-999-EUR"), ("segment-one-more-octet", attached.decode() + "x"), ("segment-one-octet-less", attached.decode()[:-1])):
+            if not seg or seg.encode() == attached:
+                continue
+            ep = lambda t, k, a, given=attached: j.rfc7797.deserialize_compact(t, k, payload=given, algorithms=a)
+            mon.judge(base, "attached-segment-changed-with-caller-payload", name, h64 + "." + seg + "." + s64, jkey, resolver, allow,
+                      "rfc7797.deserialize_compact[payload=]", ep, expect_reject=True, detached=None)
     return True
 
 
